@@ -62,6 +62,9 @@ def run(ctx):
     from .c18 import _Sub
 
     C.check_tag_tables(_Sub(ctx, ("E9.tags.u8", "E9.tags.cast", "E9.tags.str")), P)
+    # ... and through both serde forms: writer and reader of every `serde(with)` field are the same module pair, the
+    # modules are pure delegations to the associated type's own impls
+    C.check_serde_with_pairs(ctx, P, rule="E9.serde")
     R.check_scalar_importer_rejects(ctx, "E4.import-total", P)
     # 3. exit census of the signing path
     roots = [P.fns.get(k) for k in ("SecretKey<C>::sign",)]
